@@ -105,17 +105,17 @@ def build_traces(path, tier, seed):
             with warnings.catch_warnings():
                 warnings.simplefilter("ignore")
                 xin = x.copy()
-                y, ndt = tp.interp_array_to_approx_dt(xin, dt, target, even=even)
+                y, ndt = tp.interp_array_to_approx_dt(xin, dt, target, even=gen.flag(rng, even))
                 oin = eqsig.AccSignal(x.copy(), dt)
-                o = tp.interp_to_approx_dt(oin, target, even=even)
+                o = tp.interp_to_approx_dt(oin, target, even=gen.flag(rng, even))
                 if rng.integers(2):
                     # history: the same array / object again (also after a Fourier resample of the same object); the LAST results count
-                    y, ndt = tp.interp_array_to_approx_dt(xin, dt, target, even=even)
+                    y, ndt = tp.interp_array_to_approx_dt(xin, dt, target, even=gen.flag(rng, even))
                     try:
-                        tp.resample_to_approx_dt(oin, target, even=even)
+                        tp.resample_to_approx_dt(oin, target, even=gen.flag(rng, even))
                     except Exception:
                         pass
-                    o = tp.interp_to_approx_dt(oin, target, even=even)
+                    o = tp.interp_to_approx_dt(oin, target, even=gen.flag(rng, even))
                 ondt = o.dt
                 same = bool(len(o.values) == len(y) and np.array_equal(o.values, y))
         except Exception as ex:
@@ -148,7 +148,7 @@ def build_traces(path, tier, seed):
             try:
                 with warnings.catch_warnings():
                     warnings.simplefilter("ignore")
-                    n_out = len(tp.resample_to_approx_dt(eqsig.AccSignal(np.zeros(n), dt), target, even=even).values)
+                    n_out = len(tp.resample_to_approx_dt(eqsig.AccSignal(np.zeros(n), dt), target, even=gen.flag(rng, even)).values)
                 kmax = max(0, (min(n, n_out) - 1) // 2)
             except Exception:
                 pass
@@ -171,9 +171,9 @@ def build_traces(path, tier, seed):
             with warnings.catch_warnings():
                 warnings.simplefilter("ignore")
                 oin = eqsig.AccSignal(np.asarray(x, dtype=float), dt)
-                o = tp.resample_to_approx_dt(oin, target, even=even)
+                o = tp.resample_to_approx_dt(oin, target, even=gen.flag(rng, even))
                 if i % 2:            # history: the SAME input object is resampled again; the second result is the one validated
-                    o = tp.resample_to_approx_dt(oin, target, even=even)
+                    o = tp.resample_to_approx_dt(oin, target, even=gen.flag(rng, even))
                 ndt, y = o.dt, o.values
         except Exception as ex:
             raised = True
